@@ -18,7 +18,7 @@ ANCHORS = [("lib/debian/deb822.py",
              "_gpgre", "_initial_blank_line", "_blank_line_whitespace", "_blank_line_no_whitespace",
              "split_gpg_and_payload", "_skip_useless_lines", "iter_paragraphs"]),
            ("lib/debian/_util.py", ["_CaseInsensitiveString", "OrderedSet"])]
-BUDGET = {"quick": 1900, "thorough": 14000}
+BUDGET = {"quick": 1000, "thorough": 5000}
 RULE = ("a case = 1-5 assignments p[k] = v on a fresh Deb822() (0-4 existing fields with accepted realistic values - "
         "multi-line, CR/CRLF inside, blank or whitespace-only first line, whitespace-only continuation line - then the "
         "assignment under test: a new name, or an existing name in the same or another case at the first / a middle / "
@@ -221,11 +221,33 @@ def _cq_res(res):
     return "(Err %s)" % res["err"]
 
 
+def _recorded(steps):
+    """Which states go into the case file: the last one, those after a refusal and those before a refusal."""
+    n = len(steps)
+    keep = set()
+    if n:
+        keep.add(n - 1)
+    for i, (e, _) in enumerate(steps):
+        if e is not None:
+            keep.add(i)
+            if i > 0:
+                keep.add(i - 1)
+    return keep
+
+
 def emit(case, obs):
-    steps = cq_list(["(%s, %s)" % ("None" if e is None else "Some %s" % e, _cq_dict(d)) for e, d in obs["steps"]])
-    return "mk %s %s %s %s %s %s %s" % (
-        _cq_dict(case["ops"]), steps, cq_str(obs["dump"]),
-        _cq_res(obs["nows_str"]), _cq_res(obs["nows_file"]), _cq_res(obs["ws_str"]), _cq_res(obs["ws_file"]))
+    steps = obs["steps"]
+    keep = _recorded(steps)
+    errs = cq_list(["None" if e is None else "Some %s" % e for e, _ in steps])
+    states = cq_list(["(Some %s)" % _cq_dict(d) if i in keep else "None" for i, (_, d) in enumerate(steps)])
+
+    def shared(r, base):
+        return "None" if r == base else "(Some %s)" % _cq_res(r)
+
+    return "mk %s %s %s %s %s %s %s %s" % (
+        _cq_dict(case["ops"]), errs, states, cq_str(obs["dump"]),
+        _cq_res(obs["nows_str"]), shared(obs["nows_file"], obs["nows_str"]),
+        shared(obs["ws_str"], obs["nows_str"]), shared(obs["ws_file"], obs["ws_str"]))
 
 
 # ---------------------------------------------------------------------------
